@@ -13,6 +13,60 @@ from checks import blobs, common, drive
 from simworld import blobstore, prng
 
 
+def run_concurrent(case) -> dict:
+    """["conc", seed, net, cross]: blob A (valid) and blob B' (blob B modified at rest) are unprotected by two overlapping async
+    calls on one loop.  B' must fail or give B's plaintext - never anything else, in particular not A's."""
+    from checks import offline, plan as P
+    from ref import cms, gkdi
+    import random as _r
+
+    _, seed, net, cross = case
+    rng = _r.Random(seed)
+    pos = [361 + seed % 3, rng.randrange(32), rng.randrange(32)]
+    specA = {"rk": 0, "sid": offline.SID_A, "pos": pos, "mode": "nonce", "data": 20, "salt": 1000 + seed}
+    specB = {"rk": 0, "sid": offline.SID_A, "pos": pos, "mode": "nonce", "data": 20, "salt": 2000 + seed}
+    rks = [offline.synth_root_key(5, "SHA256", "DH")]
+    blobA, ptA = P.make_blob(specA, rks, 0)
+    blobB, ptB = P.make_blob(specB, rks, 0)
+    pa = cms.parse_blob(blobA)
+    if cross == "key_info":      # B with A's key identifier nonce
+        faults = [["field", "kid.key_info", pa["key_identifier"]["key_info"].hex()]]
+    elif cross == "key_identifier":  # B with A's whole key identifier
+        faults = [["field", "key_identifier", pa["key_identifier_raw"].hex()]]
+    elif cross == "enc_cek":
+        faults = [["field", "enc_cek", pa["enc_cek"].hex()]]
+    elif cross == "flip":
+        n = len(blobB)
+        faults = [["flip", rng.randrange(n * 8)]]
+    else:  # A's envelope with B's content
+        faults = [["field", "enc_content", pa["enc_content"].hex()]] if cross == "content" else [["flip", 8 * (len(blobB) - 1)]]
+    specBm = dict(specB, faults=faults)
+    order = rng.random() < 0.5
+    ops = [{"op": "unprotect", "fl": "async", "net": net, "blob": specA, "group": 1}, {"op": "unprotect", "fl": "async", "net": net, "blob": specBm, "group": 1}]
+    if order:
+        ops.reverse()
+    plan = {"seed": seed, "clock_ft": gkdi.interval_start_filetime(365, 0, 0), "root_keys": [[5, "SHA256", "DH"]], "caller_sids": [offline.SID_A],
+            "ctx": {"kind": "stub", "legs": 2, "sig": 16}, "latency_us": [1, rng.choice((50, 3000))],
+            "ops": ([{"op": "load_key", "rk": 0}] if net == "offline" else []) + ops}
+    tr = P.execute_plan(plan)
+    viol = None
+    probes = {"concurrent_pairs": 1}
+    for ot in tr.ops:
+        if ot.op["op"] != "unprotect" or not ot.op["blob"].get("faults"):
+            continue
+        out = ot.outcome
+        if out.kind == "ok" and out.value != ptB:
+            whose = "the plaintext of the OTHER blob in flight" if out.value == ptA else "other bytes"
+            viol = common.violation("C04", "different-plaintext", "async-concurrent", cross, "", "",
+                                    f"modified blob B' ({faults[0][:2]}) unprotected concurrently with valid blob A returned {whose} ({out.value[:12]!r}) instead of failing / B's plaintext")
+        elif out.kind == "ok":
+            probes["outcome_same"] = 1
+        else:
+            probes["outcome_" + out.kind] = 1
+    return {"viol": viol, "digest": tr.world.digest(), "key": common.key_hash(case), "fired": {"concurrent": 1, "field": 1}, "probes": probes,
+            "vtime_ns": tr.world.stats.get("vtime_ns", 0)}
+
+
 class C04(common.Check):
     id = "C04"
     level = "fault_enumeration"
@@ -21,12 +75,13 @@ class C04(common.Check):
             "the enumerated base blobs (all of them in thorough, a rotating subset in quick), PRNG byte substitution / insertion / deletion, "
             "2-4 site corruption and field-targeted overwrites (lengths, OIDs, nonce, wrapped CEK, key-identifier fields, ciphertext, tag) "
             "located with ref.cms' offset map; algorithm substitution (content-encryption OID rewritten to every AES mode of the NIST arc x "
-            "parameter shapes x content cut to blocks, all 256 last IV bytes for the CBC OIDs); flips/truncations of blobs with > 1 MiB content. Non-trivial = stored bytes differ from the base blob; distinct = distinct (blob, faults).")
+            "parameter shapes x content cut to blocks, all 256 last IV bytes for the CBC OIDs); flips/truncations of blobs with > 1 MiB content; pairs of overlapping async unprotects (valid blob A, modified blob B' carrying A's key "
+            "identifier / nonce / wrapped CEK / content) on one simulated loop, online and offline. Non-trivial = stored bytes differ from the base blob; distinct = distinct (blob, faults).")
     components = {"client": "real (ncrypt_unprotect_secret, DPAPINGBlob.unpack, KeyCache, key derivation, AES-KW/GCM via cryptography)",
                   "blob store": "simulated (fault injection at rest)", "network": "simulated, no DC reachable (attempts observed at the seam)",
                   "base blobs": "reference encoder (ref.cms) and the library's own protect"}
     assumptions = ["AES-KW and AES-GCM from the cryptography package are trusted primitives"]
-    required_fired = ("rot", "tear", "algsub", "big_content", "outcome_raise", "outcome_same")
+    required_fired = ("rot", "tear", "algsub", "big_content", "concurrent_pairs", "outcome_raise", "outcome_same")
 
     def exhaustive(self, tier):
         return tier == "thorough"
@@ -98,9 +153,14 @@ class C04(common.Check):
                 out.append([nb + k, [["flip", off * 8 + rng.randrange(8)]]])
             for cut in (e_ - 1, e_ - 16, e_ - 17, s_ + 1024 * 1024, s_ + 65536):
                 out.append([nb + k, [["trunc", cut]]])
+        # two overlapping async unprotects on one loop: a valid blob and a modified one that borrows parts of the valid one
+        for i in range(400 if tier == "quick" else 20000):
+            out.append(["conc", i, ("online", "offline")[i % 2], ("key_info", "key_identifier", "enc_cek", "content", "flip", "tagflip")[i % 6]])
         return out
 
     def run_case(self, case):
+        if case[0] == "conc":
+            return run_concurrent(case)
         bi, faults = case
         cat = blobs.catalogue(next(iter(blobs._CAT)))
         b = cat[bi] if bi < len(cat) else blobs.big_blobs()[bi - len(cat)]
@@ -134,12 +194,16 @@ class C04(common.Check):
         blobs.big_blobs()
 
     def shrink(self, case):
+        if case[0] == "conc":
+            return
         bi, faults = case
         for i in range(len(faults)):
             if len(faults) > 1:
                 yield [bi, faults[:i] + faults[i + 1 :]]
 
     def sample_repr(self, case, res):
+        if case[0] == "conc":
+            return dict(zip(("kind", "seed", "net", "what_of_A_is_grafted_into_B"), case))
         cat = blobs.catalogue(next(iter(blobs._CAT)))
         b = cat[case[0]] if case[0] < len(cat) else blobs.big_blobs()[case[0] - len(cat)]
         return {"blob": b.name, "faults": case[1]}
